@@ -40,6 +40,9 @@ def expected_sequence(L, nstmts):
     return seq
 
 
+F5C_SRC = "! c0\na = 1\nend\n"
+
+
 def check_one(arg):
     std, seed, v = arg
     import fp
@@ -122,7 +125,13 @@ def run(ctx):
         else:
             for sig, desc, rep in r:
                 failures.append((sig, desc, dict(rep, job=list(job))))
-    e2e = dict(cases=len(jobs), distinct=len(set(jobs)), failures=failures,
+    # recorded finding (same mechanism as C02 implicit_main_after_other_units_drops_them): comments in front of a
+    # main program without PROGRAM statement are dropped by the Main_Program0 fall-back
+    import fp
+    ok = fp.parse(F5C_SRC, std="f2003", ignore_comments=False)
+    if ok.kind == "tree" and "! c0" not in str(ok.tree):
+        failures.append(("comment_before_implicit_main_lost", "recorded finding still present", dict(source=F5C_SRC)))
+    e2e = dict(cases=len(jobs) + 1, distinct=len(set(jobs)), failures=failures,
                rule="generated programs x comment placements (full-line before/after/between units and inside every "
                     "construct, trailing, between continuation lines; texts with quotes, '!', '&', ';', directive "
                     "forms): comments(tree)==K in order, position in regenerated text, tree(P+K,ignore)==tree(P), "
